@@ -7,13 +7,28 @@
    this is the protocol half; what shutil.move does with the destination it is given
    (known findings: --overwrite of a directory payload over a file; onto a symlink to a directory)
    is library behaviour exercised on the real command. *)
-From TV Require Import Prelude.Str Prog.Prog Cmd.Restore Proofs.ProgProofs Proofs.RestoreProofs.
+From TV Require Import Prelude.Str Prog.Prog Cmd.Restore Proofs.ProgProofs Proofs.RestoreProofs Prelude.PosixPath World.World Proofs.WorldProofs Proofs.WorldRestore.
 Open Scope N_scope.
 
 Theorem restore_moves_only_onto_absent : forall o,
   all_runs (fun t _ => accepts (refuse_step (ro_overwrite o)) [] t <> None) (restore_main o).
 Proof. exact restore_refuses_lemma. Qed.
 Print Assumptions restore_moves_only_onto_absent.
+
+(* ---- on the tree of files (World.v): in every run of trash-restore that is consistent with a file system s, every
+   Move issued without --overwrite finds its destination ABSENT in the state it is issued in (wok quantifies over
+   every intermediate state of every consistent execution).  The alternative the model leaves open is a destination
+   d with under d (dirname d): d = "" or d made of slashes only, which lexists never reports absent on a real
+   system.  By World.effect a move onto an absent destination is a pure relocation (mv_tree): nothing that existed
+   outside the payload is replaced, removed or changed. *)
+Theorem restore_destination_is_absent : forall o,
+  all_runs (fun t _ => forall s, wok (absent_dst (ro_overwrite o)) s t) (restore_main o).
+Proof. exact restore_dst_absent_lemma. Qed.
+Print Assumptions restore_destination_is_absent.
+
+Example ordinary_destinations_are_not_degenerate :
+  under ($"/home/u/a") (dirname ($"/home/u/a")) = false /\ under ($"a") (dirname ($"a")) = false /\ under ($"/") (dirname ($"/")) = true.
+Proof. repeat split. Qed.
 
 Example move_onto_existing_rejected :
   accepts (refuse_step false) [] [(Lexists ($"/home/u/a"), RBool true); (Move ($"/t/files/a") ($"/home/u/a"), RUnit)] = None.
